@@ -377,6 +377,7 @@ func runC07(c *core.Ctx) {
 
 	c07CrossStep(c, pki, fast)
 	c07Clock(c, pki, fast)
+	c07Nested(c, pki, fast)
 	acc, rej := int64(0), int64(0)
 	for ci, k := range cases {
 		if !c.Mine(ci) {
@@ -560,7 +561,7 @@ func c07Clock(c *core.Ctx, pki *c07PKI, fast []gen.KeyPair) {
 	}
 	for _, first := range []bool{false, true} { // entry point of the earlier verification
 		for _, second := range []bool{false, true} { // entry point of the deciding verification
-			for _, hist := range []string{"issued-after-an-earlier-verification", "expired-since-an-earlier-verification"} {
+			for _, hist := range []string{"issued-after-an-earlier-verification", "expired-since-an-earlier-verification", "not-valid-for-two-more-minutes", "expired-two-minutes-ago"} {
 				id := fmt.Sprintf("clock/%s/first-with-directory=%v/second-with-directory=%v", hist, first, second)
 				if !c.Want(id) {
 					continue
@@ -570,7 +571,18 @@ func c07Clock(c *core.Ctx, pki *c07PKI, fast []gen.KeyPair) {
 				var cert *x509.Certificate
 				var err error
 				wantAccept := hist == "issued-after-an-earlier-verification"
-				if wantAccept {
+				if hist == "not-valid-for-two-more-minutes" || hist == "expired-two-minutes-ago" {
+					// near misses of the validity period (no tolerance is part of "at verification time")
+					if first {
+						c.End(id)
+						continue
+					}
+					if hist == "not-valid-for-two-more-minutes" {
+						cert, err = mkLink(dir, time.Now().Add(2*time.Minute), time.Now().Add(time.Hour))
+					} else {
+						cert, err = mkLink(dir, time.Now().Add(-time.Hour), time.Now().Add(-2*time.Minute))
+					}
+				} else if wantAccept {
 					// an earlier verification of an ordinary certificate, then a certificate issued later
 					if _, err = mkLink(dir, time.Now().Add(-time.Hour), time.Now().Add(time.Hour)); err == nil {
 						verify(dir, first)
@@ -609,6 +621,8 @@ func c07Clock(c *core.Ctx, pki *c07PKI, fast []gen.KeyPair) {
 				switch {
 				case wantAccept && (!obs.Accepted() || direct != nil):
 					c.Violation(fmt.Sprintf("certificate that is valid at verification time refused after an earlier verification in the same process (second call with directory=%v)", second), id, detail)
+				case !wantAccept && (obs.Accepted() || direct == nil) && (hist == "not-valid-for-two-more-minutes" || hist == "expired-two-minutes-ago"):
+					c.Violation(fmt.Sprintf("certificate outside its validity period at verification time accepted (%s, call with directory=%v)", hist, second), id, detail)
 				case !wantAccept && (obs.Accepted() || direct == nil):
 					c.Violation(fmt.Sprintf("certificate that has expired by verification time accepted after an earlier verification in the same process (second call with directory=%v)", second), id, detail)
 				default:
@@ -618,6 +632,76 @@ func c07Clock(c *core.Ctx, pki *c07PKI, fast []gen.KeyPair) {
 		}
 	}
 	c.Obs("clock_histories_as_expected", ok)
+}
+
+// c07Nested: a certificate functionary inside a sublayout. The sublayout names the root CA, the
+// intermediate that issued the functionary's certificate comes from the caller only: it must reach
+// the verification of the sublayout (accept); without it the chain is incomplete (reject).
+func c07Nested(c *core.Ctx, pki *c07PKI, fast []gen.KeyPair) {
+	if c.Shard != 2%c.NShards {
+		return
+	}
+	ok := int64(0)
+	fnKey := fast[4]
+	certPEM, cert, _, _ := pki.issue("leaf-under-intermediate-from-caller", gen.CertSpec{CN: "inner-builder"}, fnKey)
+	if cert == nil {
+		return
+	}
+	certKP := fnKey
+	certKP.Priv = gen.Functionary{KeyPair: fnKey, CertPEM: certPEM}.SigningKey()
+	for _, withDir := range []bool{false, true} {
+		for _, supplied := range []bool{true, false} {
+			id := fmt.Sprintf("nested-certificate-functionary/with-directory=%v/caller-supplies-intermediate=%v", withDir, supplied)
+			if !c.Want(id) {
+				continue
+			}
+			root := filepath.Join(c.WorkDir, "c07-nested")
+			os.RemoveAll(root)
+			linkDir, finalDir := filepath.Join(root, "links"), filepath.Join(root, gen.RunDirName)
+			mkdirs(linkDir, finalDir)
+			writeFile(filepath.Join(finalDir, "keep"), "x")
+			child := &gen.Nest{Level: 1, Signer: fast[2], Prep: certKP, Sub: fast[5], Final: fast[6]}
+			child.LayoutHook = func(l *intoto.Layout) {
+				cc := gen.WildcardConstraint()
+				cc.CommonName = "inner-builder"
+				l.Steps[0].PubKeys = []string{}
+				l.Steps[0].CertificateConstraints = []intoto.CertificateConstraint{cc}
+				delete(l.Keys, fnKey.Pub.KeyID)
+				l.RootCas = map[string]intoto.Key{pki.root.Key.KeyID: pki.root.Key}
+			}
+			rootN := &gen.Nest{Level: 0, Signer: fast[0], Prep: fast[1], Sub: fast[2], Final: fast[3], Child: child}
+			rootN.Build()
+			md, err := rootN.WriteLinks(linkDir, false)
+			if err != nil {
+				c.Inconclusive("harness: cannot build nesting: " + core.MsgClass(err.Error()))
+				continue
+			}
+			va := VerifyArgs{Layout: md, Keys: gen.KeyMap(fast[0]), LinkDir: linkDir, Cwd: finalDir}
+			if withDir {
+				va.RunDir, va.Cwd = gen.RunDirName, root
+			}
+			if supplied {
+				va.Intermediates = [][]byte{[]byte(pki.inter.PEM)}
+			}
+			c.Begin(id)
+			obs := Verify(va)
+			c.End(id)
+			c.Eval(1)
+			detail := map[string]any{"with_directory": withDir, "caller_supplies_intermediate": supplied, "error": errStr(obs.Err)}
+			reportTrace(c, id, obs, detail)
+			c.Class("nested-certificate-functionary", withDir, supplied)
+			switch {
+			case supplied && !obs.Accepted():
+				c.Violation("certificate functionary of a step inside a sublayout rejected although its chain is complete with the intermediate the caller supplies", id, detail)
+			case !supplied && obs.Accepted():
+				c.Violation("certificate functionary inside a sublayout accepted although the issuing intermediate is known to nobody", id, detail)
+			default:
+				ok++
+			}
+			os.RemoveAll(root)
+		}
+	}
+	c.Obs("nested_certificate_cases_as_expected", ok)
 }
 
 func c07CrossStep(c *core.Ctx, pki *c07PKI, fast []gen.KeyPair) {
@@ -689,7 +773,7 @@ func init() {
 	core.Register(&core.Property{
 		ID:    "C07",
 		Level: "exploration",
-		Rule: "12 chain shapes (leaf under root / intermediate in layout / intermediate from caller / two intermediates split between layout and caller; intermediate missing; leaf expired / not yet valid; intermediate expired; foreign root without and with its intermediate passed by the caller; issuer without CA flag; self-signed leaf) x (wildcard constraint, no constraints); each of the 5 attributes varied alone over 22 (certificate values, constraint list) forms (wildcard, empty list / nil / [\"\"], exact, permuted, subset, superset, disjoint, listed-but-absent, case differs; duplicates and '*' among others: abstain) on valid and invalid chains; pairs of attributes (quick: a diagonal, thorough: all pairs x all judged forms); 1-3 constraints with the matching one at each position, none matching, and every attribute satisfied only by a different constraint; root constraints (one-directional facts only); a layout without root CAs while the verifying host's own trust store (simulated with SSL_CERT_FILE) trusts the certificate's CA; one certificate signing links for two steps of which it satisfies only one (both layout orders). A third of the end-to-end observations add a listed key whose link file is present but altered after signing. Clock histories per pair of entry points: certificate issued after an earlier verification in the process (accept) / expired since an earlier verification (reject), decided by the wall-clock bracket of the deciding call. Each case is observed through Step.CheckCertConstraints, CertificateConstraint.Check and InTotoVerify / InTotoVerifyWithDirectory (alternating, with and without a parameter dictionary) on a link signed by the certificate's key. " +
+		Rule: "12 chain shapes (leaf under root / intermediate in layout / intermediate from caller / two intermediates split between layout and caller; intermediate missing; leaf expired / not yet valid; intermediate expired; foreign root without and with its intermediate passed by the caller; issuer without CA flag; self-signed leaf) x (wildcard constraint, no constraints); each of the 5 attributes varied alone over 22 (certificate values, constraint list) forms (wildcard, empty list / nil / [\"\"], exact, permuted, subset, superset, disjoint, listed-but-absent, case differs; duplicates and '*' among others: abstain) on valid and invalid chains; pairs of attributes (quick: a diagonal, thorough: all pairs x all judged forms); 1-3 constraints with the matching one at each position, none matching, and every attribute satisfied only by a different constraint; root constraints (one-directional facts only); a layout without root CAs while the verifying host's own trust store (simulated with SSL_CERT_FILE) trusts the certificate's CA; one certificate signing links for two steps of which it satisfies only one (both layout orders). A third of the end-to-end observations add a listed key whose link file is present but altered after signing. A certificate functionary inside a sublayout whose issuing intermediate comes from the caller only (with and without it, both entry points). Near misses of the validity period (not valid for two more minutes / expired two minutes ago: rejected). Clock histories per pair of entry points: certificate issued after an earlier verification in the process (accept) / expired since an earlier verification (reject), decided by the wall-clock bracket of the deciding call. Each case is observed through Step.CheckCertConstraints, CertificateConstraint.Check and InTotoVerify / InTotoVerifyWithDirectory (alternating, with and without a parameter dictionary) on a link signed by the certificate's key. " +
 			"non-trivial = the certificate parses and the step has >=1 constraint, or the no-constraint class; distinct = (label, chain shape)",
 		Assumptions: []string{"duplicated values on either side, lists containing '*' among other entries and non-wildcard root lists that contain the chain's root are not judged", "validity windows are >= 1 day away from now, except 'valid' (+-1 h / +24 h)", "certificate-signed links use the legacy wrapper (DSSE cannot carry certificates: known finding F6)"},
 		Workers:     func(string) int { return 16 },
